@@ -236,10 +236,16 @@ package core
 //@   ensures ghost(self).started && (!old(ghost(self).started) ==> ghost(self).status == statusCode) && (old(ghost(self).started) ==> ghost(self).status == old(ghost(self).status))
 
 // unflushed: body bytes handed to the client's writer since the last flush (C18: live delivery)
+// wBytes / rBytes: body bytes accepted by response writers / delivered by readers so far (C18, C02: a relay that
+// completes has handed on exactly what it read)
 //@ ghost var unflushed int
+//@ ghost var wBytes int
+//@ ghost var rBytes int
 //@ extern (net/http.ResponseWriter).Write(b)
-//@   modifies ghost(self).started, ghost(self).status, gvar unflushed
+//@   modifies ghost(self).started, ghost(self).status, gvar unflushed, gvar wBytes
 //@   records unflushed = old(unflushed) + len(b)
+//@   records wBytes = old(wBytes) + res0
+//@   ensures 0 <= res0 && res0 <= len(b) && (res1 == nil ==> res0 == len(b)) && !errorsIs(res1, io.EOF)
 //@   ensures !errorsAs(res1, "*ResponseStartedError") && !errorsIs(res1, ErrCircuitOpen)
 //@   ensures ghost(self).started && (!old(ghost(self).started) ==> ghost(self).status == 200) && (old(ghost(self).started) ==> ghost(self).status == old(ghost(self).status))
 
@@ -385,7 +391,8 @@ package core
 // io.Reader contract: 0 <= n <= len(p) (the bytes land in p: contents are not modelled)
 //@ extern (io.Reader).Read(p)
 //@   trusted
-//@   modifies ghost remaining
+//@   modifies ghost remaining, gvar rBytes
+//@   records rBytes = old(rBytes) + res0
 //@   ensures 0 <= res0 && res0 <= len(p)
 //@   ensures !errorsAs(res1, "*ResponseStartedError") && !errorsIs(res1, ErrCircuitOpen)
 
